@@ -258,7 +258,8 @@ class Eraser(ast.NodeTransformer):
         return self.generic_visit(n)
 
     def merge_gensym(self, stmts):
-        """R3: t = E; x1 = t; ...; xn = t  |->  x1 = ... = xn = E
+        """R16 (augmented assignment to an attribute / item, see below), then
+        R3: t = E; x1 = t; ...; xn = t  |->  x1 = ... = xn = E
         R4: (t0, ..., *tk, ...) = E; x0 = t0; ...; xn = tn  |->  (x0, ..., *xk, ...) = E   (temporaries bound by a real unpacking
         assignment and each used exactly once, in order: no side condition on E).
         Applied innermost-first (the last group first) so that nested tuple targets are rebuilt."""
@@ -280,6 +281,48 @@ class Eraser(ast.NodeTransformer):
                     return None
             return out or None
 
+        # R16: to = O; [ti = I;] t = to.A | to[ti]; t op= E; to.A | to[ti] = t   |->   O.A op= E | O[I] op= E
+        # (Language Reference 7.2.1: an augmented assignment evaluates the target's object and index ONCE, first, then the operand,
+        # performs the in-place operation on the value loaded from the target and stores the result to the same place; the group does
+        # exactly that, holding the object, the index and the value in temporaries no program can name: no side condition)
+        j = 0
+        while j < len(stmts):
+            a = stmts[j]
+            if not (isinstance(a, ast.AugAssign) and is_tmp(a.target)):
+                j += 1
+                continue
+            t = a.target.id
+            ok = False
+            if j >= 2 and j + 1 < len(stmts):
+                ld, st_ = stmts[j - 1], stmts[j + 1]
+                if (isinstance(ld, ast.Assign) and len(ld.targets) == 1 and is_tmp(ld.targets[0]) and ld.targets[0].id == t
+                        and isinstance(ld.value, (ast.Attribute, ast.Subscript)) and is_tmp(ld.value.value)
+                        and isinstance(st_, ast.Assign) and len(st_.targets) == 1 and isinstance(st_.value, ast.Name) and st_.value.id == t
+                        and type(st_.targets[0]) is type(ld.value)
+                        and dump(st_.targets[0]).replace("Store()", "Load()") == dump(ld.value).replace("Store()", "Load()")):
+                    to = ld.value.value.id
+                    k = j - 2
+                    index = None
+                    if isinstance(ld.value, ast.Subscript) and is_tmp(ld.value.slice):
+                        ix = stmts[k] if k >= 0 else None
+                        if isinstance(ix, ast.Assign) and len(ix.targets) == 1 and is_tmp(ix.targets[0]) and ix.targets[0].id == ld.value.slice.id:
+                            index = ix.value
+                            k -= 1
+                        else:
+                            k = -2
+                    ob = stmts[k] if k >= 0 else None
+                    if (isinstance(ob, ast.Assign) and len(ob.targets) == 1 and is_tmp(ob.targets[0]) and ob.targets[0].id == to
+                            and isinstance(ob.value, ast.Name) and not is_tmp(ob.value)):
+                        if isinstance(ld.value, ast.Attribute):
+                            tgt = ast.Attribute(value=ast.Name(id=ob.value.id, ctx=ast.Load()), attr=ld.value.attr, ctx=ast.Store())
+                        else:
+                            tgt = ast.Subscript(value=ast.Name(id=ob.value.id, ctx=ast.Load()), slice=index if index is not None else ld.value.slice, ctx=ast.Store())
+                        stmts[k: j + 2] = [ast.AugAssign(target=tgt, op=a.op, value=a.value)]
+                        j = k + 1
+                        ok = True
+            if not ok:
+                self.problems.append(Problem("R16", "augmented assignment on a temporary that is not the load / update / store group of one target"))
+                j += 1
         while True:
             idx = None
             for i in range(len(stmts) - 1, -1, -1):
